@@ -128,8 +128,8 @@ Fixpoint rstrip_char (c : ascii) (s : string) : string :=
                   end
   end.
 
-Definition nested_type_names (ms : list melem) (ids : string) : option string :=
-  r <- foldM (fun acc t => e <- get_model_element ms t ;; Some (acc ++ ve_name e ++ "::")) (split_on ":" ids) "" ;;
+Definition nested_type_names (g : string -> option velem) (ids : string) : option string :=
+  r <- foldM (fun acc t => e <- g t ;; Some (acc ++ ve_name e ++ "::")) (split_on ":" ids) "" ;;
   Some (rstrip_char ":" r).
 
 Definition clean_modifiers (t : string) : string :=
@@ -171,10 +171,10 @@ Definition opt_field (k : string) (d : pv) (dflt : string) : option string :=
 
 (* ---------------------------------------------------------------- ClassOperation *)
 
-Definition parse_param (ms : list melem) (v : pv) : option rparam :=
+Definition parse_param (g : string -> option velem) (v : pv) : option rparam :=
   c0 <- idx "child_0" v ;;
   ty <- (if has "type_string" c0 then t <- sidx "type_string" c0 ;; Some (clean_modifiers t)
-         else t <- sidx "type_0" c0 ;; n <- nested_type_names ms t ;; Some (clean_modifiers n)) ;;
+         else t <- sidx "type_0" c0 ;; n <- nested_type_names g t ;; Some (clean_modifiers n)) ;;
   dirv <- (if has "direction" c0 then d <- idx "direction" c0 ;; Some (Some d) else Some None) ;;
   let is_in := match dirv with Some d => pv_is "65" d | None => false end in
   let is_out := match dirv with Some d => pv_is "66" d | None => false end in
@@ -185,12 +185,12 @@ Definition parse_param (ms : list melem) (v : pv) : option rparam :=
   Some {| rp_const := if is_in then "const" else ""; rp_type := ty; rp_name := nm; rp_modifier := md; rp_default := dv;
           rp_mult := mu; rp_dir := if is_out then "out" else if is_in then "in" else "inout" |}.
 
-Definition parse_operation (ms : list melem) (container : pv) : option rop :=
+Definition parse_operation (g : string -> option velem) (container : pv) : option rop :=
   nm <- sidx "name" container ;;
   c0 <- idx "child_0" container ;;
   visv <- (if has "visibility" c0 then x <- idx "visibility" c0 ;; Some (visibility_str x) else Some "public") ;;
   let pkg := String.eqb (py_strip (lower visv)) "package" in
-  ret <- (if has "returnType_0" c0 then t <- sidx "returnType_0" c0 ;; n <- nested_type_names ms t ;; Some (clean_modifiers n)
+  ret <- (if has "returnType_0" c0 then t <- sidx "returnType_0" c0 ;; n <- nested_type_names g t ;; Some (clean_modifiers n)
           else Some "void") ;;
   rmod <- opt_field "typeModifier" c0 "" ;;
   its <- items c0 ;;
@@ -198,7 +198,7 @@ Definition parse_operation (ms : list melem) (container : pv) : option rop :=
                  if contains "child" (fst kv) then
                    if truthy (snd kv) then
                      t <- sidx "type" (snd kv) ;;
-                     if String.eqb "parameter" (lower t) then p <- parse_param ms (snd kv) ;; Some (acc ++ [p])%list else Some acc
+                     if String.eqb "parameter" (lower t) then p <- parse_param g (snd kv) ;; Some (acc ++ [p])%list else Some acc
                    else Some acc
                  else Some acc) its [] ;;
   cm <- opt_field "documentation_plain" c0 "" ;;
@@ -208,12 +208,12 @@ Definition parse_operation (ms : list melem) (container : pv) : option rop :=
 
 (* ---------------------------------------------------------------- ClassAttribute *)
 
-Definition parse_attribute (ms : list melem) (container : pv) : option rattr :=
+Definition parse_attribute (g : string -> option velem) (container : pv) : option rattr :=
   nm <- sidx "name" container ;;
   c0 <- idx "child_0" container ;;
   visv <- (if has "visibility" c0 then x <- idx "visibility" c0 ;; Some (visibility_str x) else Some "private") ;;
   md <- opt_field "typeModifier" c0 "" ;;
-  ty <- (if has "type_0" c0 then t <- sidx "type_0" c0 ;; n <- nested_type_names ms t ;; Some (clean_modifiers n) else Some "void") ;;
+  ty <- (if has "type_0" c0 then t <- sidx "type_0" c0 ;; n <- nested_type_names g t ;; Some (clean_modifiers n) else Some "void") ;;
   cm <- opt_field "documentation_plain" c0 "" ;;
   sc <- (if has "scope" c0 then x <- idx "scope" c0 ;; Some (pv_is "65" x) else Some false) ;;
   iv <- (if has "initialValue_string" c0 then x <- sidx "initialValue_string" c0 ;; Some (Some x) else Some None) ;;
@@ -227,11 +227,11 @@ Definition parse_attribute (ms : list melem) (container : pv) : option rattr :=
 Record cflags := { cf_pure : bool; cf_autogen : bool; cf_enum : bool; cf_struct : bool; cf_packed : bool; cf_comment : string;
                    cf_literals : list string }.
 
-Definition stereo_step (ms : list melem) (f : cflags) (kv : string * pv) : option cflags :=
+Definition stereo_step (g : string -> option velem) (f : cflags) (kv : string * pv) : option cflags :=
   let kk := lower (fst kv) in
   let vv := snd kv in
   if contains "stereotype" kk then
-    id <- as_str vv ;; e <- get_model_element ms id ;;
+    id <- as_str vv ;; e <- g id ;;
     let n := lower (ve_name e) in
     if contains "interface" n then Some {| cf_pure := true; cf_autogen := cf_autogen f; cf_enum := cf_enum f; cf_struct := cf_struct f; cf_packed := cf_packed f; cf_comment := cf_comment f; cf_literals := cf_literals f |}
     else if contains "autogen" n then Some {| cf_pure := cf_pure f; cf_autogen := true; cf_enum := cf_enum f; cf_struct := cf_struct f; cf_packed := cf_packed f; cf_comment := cf_comment f; cf_literals := cf_literals f |}
@@ -259,41 +259,41 @@ Definition over_children {S} (top : pv) (f : S -> string * pv -> option S) (s : 
   its <- items top ;;
   foldM (fun s kv => if is_child_key (fst kv) then its2 <- items (snd kv) ;; foldM f its2 s else Some s) its s.
 
-Definition typed_children {A} (ms : list melem) (top : pv) (ty : string) (p : list melem -> pv -> option A) : option (list A) :=
+Definition typed_children {A} (g : string -> option velem) (top : pv) (ty : string) (p : (string -> option velem) -> pv -> option A) : option (list A) :=
   over_children top (fun acc kv =>
       if is_child_key (fst kv) then
         if truthy (snd kv) then
           t <- sidx "type" (snd kv) ;;
-          if String.eqb ty (lower t) then x <- p ms (snd kv) ;; Some (acc ++ [x])%list else Some acc
+          if String.eqb ty (lower t) then x <- p g (snd kv) ;; Some (acc ++ [x])%list else Some acc
         else Some acc
       else Some acc) [].
 
-Definition parse_class (ms : list melem) (v : velem) : option rclass :=
-  top <- parse_blob (ve_blobstr v) ;;
-  fl <- over_children top (stereo_step ms)
+Definition parse_class (g : string -> option velem) (P : velem -> option pv) (v : velem) : option rclass :=
+  top <- P v ;;
+  fl <- over_children top (stereo_step g)
           {| cf_pure := false; cf_autogen := false; cf_enum := false; cf_struct := false; cf_packed := false; cf_comment := ""; cf_literals := [] |} ;;
-  ops <- typed_children ms top "operation" parse_operation ;;
-  ats <- typed_children ms top "attribute" parse_attribute ;;
+  ops <- typed_children g top "operation" parse_operation ;;
+  ats <- typed_children g top "attribute" parse_attribute ;;
   Some {| rc_id := ve_id v; rc_name := ve_name v; rc_ns := ""; rc_pure := cf_pure fl; rc_autogen := cf_autogen fl; rc_enum := cf_enum fl;
           rc_struct := cf_struct fl; rc_packed := cf_packed fl; rc_comment := cf_comment fl; rc_literals := cf_literals fl;
           rc_ops := ops; rc_attrs := ats |}.
 
 (* ---------------------------------------------------------------- Package, Inheritance *)
 
-Definition parse_package (v : velem) : option rpackage :=
-  top <- parse_blob (ve_blobstr v) ;;
+Definition parse_package (P : velem -> option pv) (v : velem) : option rpackage :=
+  top <- P v ;;
   cs <- over_children top (fun acc kv =>
           if is_child_key (fst kv) then match snd kv with PStr s => Some (acc ++ [py_strip s])%list | PDict _ => Some acc end
           else Some acc) [] ;;
   Some {| rk_id := ve_id v; rk_name := ve_name v; rk_classes := cs |}.
 
-Definition parse_inheritance (ms : list melem) (v : velem) (real : bool) : option rinh :=
-  top <- parse_blob (ve_blobstr v) ;;
+Definition parse_inheritance (g : string -> option velem) (P : velem -> option pv) (v : velem) (real : bool) : option rinh :=
+  top <- P v ;;
   its <- items top ;;
   foldM (fun r kv =>
            if is_child_key (fst kv) then
-             f <- sidx "fromModel_0" (snd kv) ;; fn <- nested_type_names ms f ;;
-             t <- sidx "toModel_0" (snd kv) ;; tn <- nested_type_names ms t ;;
+             f <- sidx "fromModel_0" (snd kv) ;; fn <- nested_type_names g f ;;
+             t <- sidx "toModel_0" (snd kv) ;; tn <- nested_type_names g t ;;
              Some {| ri_id := ri_id r; ri_real := real; ri_from := fn; ri_from_id := last_of (split_on ":" f);
                      ri_to := tn; ri_to_id := last_of (split_on ":" t) |}
            else Some r) its
@@ -346,10 +346,10 @@ Definition set_comment (a : rassoc) (c : string) : rassoc :=
      as_to_mult := as_to_mult a; as_to_getter := as_to_getter a; as_to_setter := as_to_setter a |}.
 
 (* the body of `for kkk, vvv in vv.items(): if 'child' in kkk.lower(): ...` for one association end property *)
-Definition assoc_end_step (ms : list melem) (a : rassoc) (vvv : pv) : option rassoc :=
+Definition assoc_end_step (g : string -> option velem) (a : rassoc) (vvv : pv) : option rassoc :=
   d0 <- dir_is "0" vvv ;; d1 <- dir_is "1" vvv ;;
-  a1 <- (if d0 then e <- sidx "EndModelElement_0" vvv ;; n <- nested_type_names ms e ;; Some (set_from a n (last_of (split_on ":" e)))
-         else if d1 then e <- sidx "EndModelElement_0" vvv ;; n <- nested_type_names ms e ;; Some (set_to a n (last_of (split_on ":" e)))
+  a1 <- (if d0 then e <- sidx "EndModelElement_0" vvv ;; n <- nested_type_names g e ;; Some (set_from a n (last_of (split_on ":" e)))
+         else if d1 then e <- sidx "EndModelElement_0" vvv ;; n <- nested_type_names g e ;; Some (set_to a n (last_of (split_on ":" e)))
          else Some a) ;;
   a2 <- (if has "aggregationKind" vvv then k <- idx "aggregationKind" vvv ;;
            Some (if pv_is "66" k then set_type a1 "Aggregation" else if pv_is "67" k then set_type a1 "Composition" else a1)
@@ -377,8 +377,8 @@ Definition assoc_readonly (a : rassoc) (vvv : pv) : option rassoc :=
     Some (if d0 then set_end a true None None (Some true) None None None else if d1 then set_end a false None None (Some true) None None None else a)
   else Some a.
 
-Definition parse_association (ms : list melem) (v : velem) : option rassoc :=
-  top <- parse_blob (ve_blobstr v) ;;
+Definition parse_association (g : string -> option velem) (P : velem -> option pv) (v : velem) : option rassoc :=
+  top <- P v ;;
   its <- items top ;;
   foldM (fun a kv =>
            a' <- (if has "documentation_plain" (snd kv) then c <- sidx "documentation_plain" (snd kv) ;; Some (set_comment a c) else Some a) ;;
@@ -391,7 +391,7 @@ Definition parse_association (ms : list melem) (v : velem) : option rassoc :=
                           if contains "associationend" (lower t) then
                             its3 <- items (snd kv2) ;;
                             foldM (fun a kv3 =>
-                                     a1 <- (if is_child_key (fst kv3) then assoc_end_step ms a (snd kv3) else Some a) ;;
+                                     a1 <- (if is_child_key (fst kv3) then assoc_end_step g a (snd kv3) else Some a) ;;
                                      assoc_readonly a1 (snd kv3)) its3 a
                           else Some a
                         else Some a
@@ -405,18 +405,18 @@ Definition parse_association (ms : list melem) (v : velem) : option rassoc :=
 
 (* ---------------------------------------------------------------- ClassDiagram.LoadAndTest *)
 
-Definition load_elem (ms : list melem) (acc : option rdiagram) (e : delem) : option rdiagram :=
+Definition load_elem (g : string -> option velem) (P : velem -> option pv) (acc : option rdiagram) (e : delem) : option rdiagram :=
   d <- acc ;;
   mid <- de_model e ;;
-  v <- get_model_element ms mid ;;
+  v <- g mid ;;
   let t := ve_type v in
-  if String.eqb t "Class" then c <- parse_class ms v ;;
+  if String.eqb t "Class" then c <- parse_class g P v ;;
     Some {| rd_classes := upsert String.eqb (ve_id v) c (rd_classes d); rd_packages := rd_packages d; rd_assocs := rd_assocs d; rd_inhs := rd_inhs d |}
-  else if String.eqb t "Package" then p <- parse_package v ;;
+  else if String.eqb t "Package" then p <- parse_package P v ;;
     Some {| rd_classes := rd_classes d; rd_packages := upsert String.eqb (ve_id v) p (rd_packages d); rd_assocs := rd_assocs d; rd_inhs := rd_inhs d |}
-  else if String.eqb t "Association" then a <- parse_association ms v ;;
+  else if String.eqb t "Association" then a <- parse_association g P v ;;
     Some {| rd_classes := rd_classes d; rd_packages := rd_packages d; rd_assocs := upsert String.eqb (ve_id v) a (rd_assocs d); rd_inhs := rd_inhs d |}
-  else if String.eqb t "Realization" || String.eqb t "Generalization" then i <- parse_inheritance ms v (String.eqb t "Realization") ;;
+  else if String.eqb t "Realization" || String.eqb t "Generalization" then i <- parse_inheritance g P v (String.eqb t "Realization") ;;
     Some {| rd_classes := rd_classes d; rd_packages := rd_packages d; rd_assocs := rd_assocs d; rd_inhs := upsert String.eqb (ve_id v) i (rd_inhs d) |}
   else Some d.                                              (* Usage: pass ; anything else: printed *)
 
@@ -452,14 +452,19 @@ Definition fix_inh (cls : list (string * rclass)) (i : rinh) : rinh :=
 Definition class_diagrams (ds : list diag) : list (string * string) :=
   fold_left (fun acc d => if String.eqb (dg_type d) "ClassDiagram" then upsert String.eqb (dg_id d) (dg_name d) acc else acc) ds [].
 
-(* vppclassdiagram.ExtractClassDiagram(name, path) *)
-Definition load_cdiagram (d : db) (name : string) : option rdiagram :=
-  did <- id_from_name (class_diagrams (db_diagrams d)) name ;;
-  r <- fold_left (load_elem (db_melems d)) (diagram_elements (db_delems d) did)
-         (Some {| rd_classes := []; rd_packages := []; rd_assocs := []; rd_inhs := [] |}) ;;
+(* the diagram loaded from its shapes, with [g] = GetModelElement and [P] = ParseBLOB_Recursive of an element's blob *)
+Definition load_gen (g : string -> option velem) (P : velem -> option pv) (elems : list delem) : option rdiagram :=
+  r <- fold_left (load_elem g P) elems (Some {| rd_classes := []; rd_packages := []; rd_assocs := []; rd_inhs := [] |}) ;;
   cls <- namespaces r ;;
   Some {| rd_classes := cls; rd_packages := rd_packages r; rd_assocs := rd_assocs r;
           rd_inhs := map (fun ki => (fst ki, fix_inh cls (snd ki))) (rd_inhs r) |}.
+
+Definition blob_of (v : velem) : option pv := parse_blob (ve_blobstr v).
+
+(* vppclassdiagram.ExtractClassDiagram(name, path) *)
+Definition load_cdiagram (d : db) (name : string) : option rdiagram :=
+  did <- id_from_name (class_diagrams (db_diagrams d)) name ;;
+  load_gen (get_model_element (db_melems d)) blob_of (diagram_elements (db_delems d) did).
 
 (* ---------------------------------------------------------------- rendering helpers of LanguageCPP (D) *)
 
